@@ -440,7 +440,15 @@ func (g *G) MatchPlanted(strict bool) MatchCase {
 func (g *G) MatchMalformed() MatchCase {
 	c := g.MatchPlanted(false)
 	c.Profile = "malformed"
-	switch g.Intn(6) {
+	switch g.Intn(7) {
+	case 6: // a variable bound to its own name, or two bound to each other (a message may hold such strings)
+		c.P = map[string]interface{}{"a": "?x", "b": []interface{}{"?y"}}
+		c.F = map[string]interface{}{"a": g.PickS("?x", "?y", "a"), "b": []interface{}{g.PickS("?x", "?y"), 1.0}}
+		if g.P(1, 2) {
+			c.Bs = map[string]interface{}{"?x": "?x"}
+		} else {
+			c.Bs = map[string]interface{}{"?x": "?y", "?y": "?x"}
+		}
 	case 0: // two variables in one array, possibly next to a non-matching key
 		m := map[string]interface{}{"a": []interface{}{"?x", "?y"}, "c": g.Scalar()}
 		f := map[string]interface{}{"a": []interface{}{g.Scalar()}, "c": g.Scalar()}
